@@ -11,9 +11,10 @@ import (
 
 // condAxiom is a library contract that holds where `guard` is known to be non-nil.
 type condAxiom struct {
-	guard ssa.Value
-	cons  []Cons
-	lazy  func(facts []Cons) []Cons // facts that depend on what is already provable
+	guardNil ssa.Value // holds where this value is known to be nil (e.g. err == nil)
+	guard    ssa.Value
+	cons     []Cons
+	lazy     func(facts []Cons) []Cons // facts that depend on what is already provable
 }
 
 // Prepare scans the function once: induction facts for loop phis, library contracts for call results.
@@ -28,62 +29,95 @@ func (f *Fn) Prepare() {
 			}
 		}
 	}
+	// induction steps are checked after all contracts are registered; two rounds let one loop variable's fact
+	// support another's
+	for round := 0; round < 2; round++ {
+		n := len(f.Axioms)
+		for _, p := range f.pending {
+			p()
+		}
+		if len(f.Axioms) == n {
+			break
+		}
+	}
+	f.Axioms = dedupCons(f.Axioms)
 }
 
-// phiFact: P = phi(E, P+k...) with all k >= 0 gives P >= E (one-step induction); all k <= 0 gives P <= E.
+func dedupCons(cs []Cons) []Cons {
+	seen := map[string]bool{}
+	var out []Cons
+	for _, c := range cs {
+		k := c.E.String()
+		if c.Ne {
+			k = "!" + k
+		}
+		if seen[k] {
+			continue
+		}
+		seen[k] = true
+		out = append(out, c)
+	}
+	return out
+}
+
+// phiFact: one-step induction for loop variables. For a loop-header phi P (an integer, or the length of a
+// string/slice) with a single entry value E: if every back edge delivers a value >= P (provable from the facts at
+// the edge's source block) then P >= E everywhere; if every back edge delivers a value <= P then P <= E.
 func (f *Fn) phiFact(p *ssa.Phi) {
-	if bt, ok := p.Type().Underlying().(*types.Basic); !ok || bt.Info()&types.IsInteger == 0 {
+	var me Expr
+	exprOf := func(v ssa.Value) Expr { return f.Norm(v) }
+	switch t := p.Type().Underlying().(type) {
+	case *types.Basic:
+		switch {
+		case t.Info()&types.IsInteger != 0:
+			me = Atom(f.atom(p))
+		case t.Info()&types.IsString != 0:
+			me = f.LenOf(p)
+			exprOf = func(v ssa.Value) Expr { return f.LenOf(v) }
+		default:
+			return
+		}
+	case *types.Slice:
+		me = f.LenOf(p)
+		exprOf = func(v ssa.Value) Expr { return f.LenOf(v) }
+	default:
 		return
 	}
-	me := f.atom(p)
 	var bases []Expr
-	up, down := true, true
-	for _, e := range p.Edges {
-		n := f.Norm(e)
-		if c, has := n.Coef[me]; has {
-			rest := n.clone()
-			delete(rest.Coef, me)
-			if c != 1 || len(rest.Coef) != 0 {
-				return // not P + k
-			}
-			if rest.K < 0 {
+	var backs []int
+	for i := range p.Edges {
+		if p.Block().Dominates(p.Block().Preds[i]) {
+			backs = append(backs, i)
+		} else {
+			bases = append(bases, exprOf(p.Edges[i]))
+		}
+	}
+	if len(bases) != 1 || len(backs) == 0 {
+		return
+	}
+	f.pending = append(f.pending, func() {
+		up, down := true, true
+		for _, i := range backs {
+			pred := p.Block().Preds[i]
+			e := exprOf(p.Edges[i])
+			facts := f.FactsAt(pred)
+			if !Prove(facts, Ge(e, me, "")) {
 				up = false
 			}
-			if rest.K > 0 {
+			if !Prove(facts, Ge(me, e, "")) {
 				down = false
 			}
-			continue
 		}
-		// through another phi that merges P itself (e.g. an if inside the loop body): accept P-only phis
-		if q, ok := e.(*ssa.Phi); ok && phiOnlyOf(q, p, f) {
-			continue
+		if up {
+			f.Axioms = append(f.Axioms, Ge(me, bases[0], "loop variable "+p.Name()+" starts at "+bases[0].String()+" and never decreases"))
+			if _, isInt := p.Type().Underlying().(*types.Basic); isInt && me.IsAtom() {
+				f.upperBound(p, f.atom(p), bases[0])
+			}
 		}
-		bases = append(bases, n)
-	}
-	if len(bases) != 1 {
-		return
-	}
-	if up {
-		f.upperBound(p, me, bases[0])
-	}
-	if up {
-		f.Axioms = append(f.Axioms, Ge(Atom(me), bases[0], "loop variable "+p.Name()+" starts at "+bases[0].String()+" and never decreases"))
-	}
-	if down {
-		f.Axioms = append(f.Axioms, Ge(bases[0], Atom(me), "loop variable "+p.Name()+" starts at "+bases[0].String()+" and never increases"))
-	}
-}
-
-func phiOnlyOf(q, p *ssa.Phi, f *Fn) bool {
-	me := f.atom(p)
-	for _, e := range q.Edges {
-		n := f.Norm(e)
-		c, has := n.Coef[me]
-		if !has || c != 1 || len(n.Coef) != 1 || n.K < 0 {
-			return false
+		if down {
+			f.Axioms = append(f.Axioms, Ge(bases[0], me, "loop variable "+p.Name()+" starts at "+bases[0].String()+" and never increases"))
 		}
-	}
-	return true
+	})
 }
 
 // ElemAtom names the k-th element of an immutable local slice value.
@@ -157,6 +191,16 @@ func (f *Fn) contract(c *ssa.Call) {
 				return nil
 			}})
 		}
+	case "strconv.UnquoteChar":
+		// on success the tail is a proper suffix of the input
+		arg := c.Call.Args[0]
+		for _, tl := range ssax.Extracts(c, 2) {
+			for _, er := range ssax.Extracts(c, 3) {
+				conds[f] = append(conds[f], condAxiom{guardNil: er, cons: []Cons{
+					Ge(f.LenOf(arg), f.LenOf(tl).Add(Const(1)), "strconv.UnquoteChar: on success at least one byte is consumed"),
+				}})
+			}
+		}
 	case "sort.Search", "sort.SearchInts":
 		r := Atom(f.atom(c))
 		f.Axioms = append(f.Axioms, Ge(r, Const(0), "sort.Search: result >= 0"))
@@ -200,6 +244,9 @@ func (f *Fn) FactsAt(b *ssa.BasicBlock) []Cons {
 	facts := f.Facts(b)
 	for _, ca := range conds[f] {
 		if ca.guard != nil && nonNilAt(b, ca.guard) {
+			facts = append(facts, ca.cons...)
+		}
+		if ca.guardNil != nil && nilAt(b, ca.guardNil) {
 			facts = append(facts, ca.cons...)
 		}
 	}
@@ -292,4 +339,27 @@ func stableAtom(a string) bool {
 		}
 	}
 	return true
+}
+
+// nilAt: block b is dominated by a test establishing v == nil.
+func nilAt(b *ssa.BasicBlock, v ssa.Value) bool {
+	for _, cd := range ssax.DominatingConds(b) {
+		bo, ok := cd.Val.(*ssa.BinOp)
+		if !ok {
+			continue
+		}
+		var x ssa.Value
+		if ssax.IsNilConst(bo.Y) {
+			x = bo.X
+		} else if ssax.IsNilConst(bo.X) {
+			x = bo.Y
+		}
+		if x != v {
+			continue
+		}
+		if bo.Op == token.EQL && cd.Truth || bo.Op == token.NEQ && !cd.Truth {
+			return true
+		}
+	}
+	return false
 }
